@@ -109,7 +109,8 @@ def subquery_corpus():
                   "select a * 1 as s, b from t1", "select a * b as s, b from t1", "select - (- a) as s, b from t1",
                   "select a as s, count(*) as b from t1 group by a", "select max(a) as s, min(b) as b from t1",
                   "select x.a as s, y.b as b from t1 as x join t3 as y on x.a = y.a",
-                  "select distinct a as s, b from t1", "select a as s, b from t1 where b > 0 order by a limit 3"):
+                  "select distinct a as s, b from t1", "select a as s, b from t1 where b > 0 order by a limit 3",
+                  "select distinct a + 1 as s, b from t1", "select distinct a as s, b * 2 as b from t1"):
         col = "a" if inner == "select a, b from t1" else "s"
         for outer in (f"select d.{col} from ({inner}) as d", f"select d.{col}, d.b from ({inner}) as d where d.b > 1",
                       f"select d.{col} + 1 from ({inner}) as d order by 1", f"select count(*), max(d.{col}) from ({inner}) as d",
@@ -205,7 +206,7 @@ def check_c17(args):
         if qinfo.get("source") == "subquery-family":
             key = f"{where}|{qinfo['sql']}"
             stats.setdefault("subq_failures", set()).add(key)
-            fid = "F32" if " from (select" in qinfo["sql"] else "Q8"
+            fid = ("F33" if " from (select distinct" in qinfo["sql"] else "F32") if " from (select" in qinfo["sql"] else "Q8"
             if key in known_subq and v.is_known(fid):
                 v.note_known(fid)
                 note(f"known:{fid} (listed input)")
